@@ -1346,6 +1346,22 @@ func (s *sim) checkAccessors(box *stateBox, where string) {
 		vsetter{"Eth1Data", func(c common.BeaconState) error { return c.SetEth1Data(e3) }, e3},
 		vsetter{"Slot", func(c common.BeaconState) error { return c.SetSlot(slot + 1) }, slot + 1},
 	)
+	// two additions to one entry of the slashings vector: the entry holds its old value plus both
+	if len(rawSl) > 0 {
+		e := s.frng.Intn(len(rawSl))
+		wantSl := append(phase0.SlashingsHistory(nil), rawSl...)
+		wantSl[e] += 8_000_000_000
+		vs = append(vs, vsetter{"Slashings", func(c common.BeaconState) error {
+			sl, err := c.Slashings()
+			if err != nil {
+				return err
+			}
+			if err := sl.AddSlashing(common.Epoch(e), 3_000_000_000); err != nil {
+				return err
+			}
+			return sl.AddSlashing(common.Epoch(e+len(rawSl)), 5_000_000_000) // (the same entry, one turn of the vector later)
+		}, wantSl})
+	}
 	// justification bits with the highest of the four bits set (values other than the current one)
 	if cur, err := st.JustificationBits(); err == nil {
 		n := 0
